@@ -35,6 +35,22 @@ OPS_PRE = {
 # `broadcast use`d in the generated lemma): name -> (ops, chain fn, lemma)
 POW2_SEQ = ['Push(2)', 'Pad', 'Incr', 'Swap', 'Pad'] + ['Expacc'] * 6 + ['Drop', 'Drop', 'Swap', 'Eqz', 'Assert(0)']
 MACROS = [('pow2', POW2_SEQ, 'pow2_chain', 'lemma_pow2_chain')]
+EXP_HEAD = ['Pad', 'Incr', 'MovUp2', 'Pad']
+EXP_TAIL = ['Drop', 'Drop', 'Swap', 'Eqz', 'Assert(0)']
+
+
+def match_macro(ops, i):
+    """-> (name, consumed, call format over {s}, lemma) or None"""
+    for mname, mseq, mfn, mlem in MACROS:
+        if ops[i:i + len(mseq)] == mseq:
+            return (mname, len(mseq), mfn + '({s})', mlem)
+    if ops[i:i + 4] == EXP_HEAD:
+        n = 0
+        while i + 4 + n < len(ops) and ops[i + 4 + n] == 'Expacc':
+            n += 1
+        if ops[i + 4 + n:i + 9 + n] == EXP_TAIL:
+            return ('exp', 9 + n, 'exp_chain({s}, %d)' % n, 'lemma_exp_chain')
+    return None
 
 
 class E2Error(Exception):
@@ -52,10 +68,15 @@ class Sym:
         self.delta = 0         # net depth change so far
         self.mind = 0          # minimum net change so far (<= 0): zeros padded = max(0, 16 - len - mind)
 
+    @staticmethod
+    def s0at(i):
+        # lemmas require s0.len() >= 16 only: deeper positions are read through sx (zero beyond the depth)
+        return 's0[%d]' % i if i < 16 else 'sx(s0, %d)' % i
+
     def get(self, i):
         if i < len(self.top):
             return self.top[i]
-        return 's0[%d]' % (i - len(self.top) + self.c)
+        return self.s0at(i - len(self.top) + self.c)
 
     def pop(self, n=1):
         out = []
@@ -63,14 +84,14 @@ class Sym:
             if self.top:
                 out.append(self.top.pop(0))
             else:
-                out.append('s0[%d]' % self.c)
+                out.append(self.s0at(self.c))
                 self.c += 1
         return out
 
     def need(self, n):
         """make the first n elements explicit"""
         while len(self.top) < n:
-            self.top.append('s0[%d]' % self.c)
+            self.top.append(self.s0at(self.c))
             self.c += 1
 
     @property
@@ -221,14 +242,10 @@ class Gen:
             ops = node[1]
             i = 0
             while i < len(ops):
-                hit = None
-                for mname, mseq, mfn, mlem in MACROS:
-                    if ops[i:i + len(mseq)] == mseq:
-                        hit = (mname, mseq, mfn, mlem)
-                        break
+                hit = match_macro(ops, i)
                 if hit and self.sym is None:
                     st = self.emit_macro(hit, st)
-                    i += len(hit[1])
+                    i += hit[1]
                 else:
                     st = self.emit_op(ops[i], st)
                     i += 1
@@ -256,12 +273,12 @@ class Gen:
         raise E2Error('block kind %s not supported by the lemma generator' % kind)
 
     def emit_macro(self, hit, st):
-        mname, mseq, mfn, mlem = hit
+        mname, mlen, mcall, mlem = hit
         s, ok, pre, k = st
         i = self.fresh()
-        self.nops += len(mseq)
+        self.nops += mlen
         self.lemmas_used = getattr(self, 'lemmas_used', set()) | {mlem}
-        self.lines.append('let c%d = %s(%s); let s%d = c%d.0; let ok%d = %s && c%d.1;' % (i, mfn, s, i, i, i, ok, i))
+        self.lines.append('let c%d = %s; let s%d = c%d.0; let ok%d = %s && c%d.1;' % (i, mcall.format(s=s), i, i, i, ok, i))
         return ('s%d' % i, 'ok%d' % i, pre, k)
 
     def emit_op(self, op, st):
@@ -406,7 +423,10 @@ def generate(specfile, repo, verif):
         for ln_name, op_, sem_on_prev, form in step_lemmas:
             lines.append('// one step (%s) of %s on the normal form' % (op_, name))
             lines.append('pub proof fn %s(s0: Seq<Felt>, adv: Seq<Felt>)' % ln_name)
-            lines.append('    requires s0.len() >= 16, adv.len() >= 8,')
+            # the step lemmas are about stack shapes only: they need the depth and (where advice values
+            # appear in the forms) the advice length the main lemma requires
+            advp = [q for q in e.get('pre', []) if q.startswith('adv.len()')]
+            lines.append('    requires s0.len() >= 16,' + ''.join(' %s,' % q for q in advp))
             lines.append('    ensures %s == %s' % (sem_on_prev, form))
             lines.append('{ assert(%s =~= %s); }' % (sem_on_prev, form))
         index.append((name, len(out), len(lines)))
